@@ -5,6 +5,10 @@ Line driver for C17.  Input: harness lines `case<TAB>…` (only the case is read
 * `sj <base> <name>`   → `none` | `some <path> <flags> <comps> <normalized comps>`
 * `push <path> <seg>`  → `<path>`
 * `comps <path>`       → `<flags> <comps> <normalized comps>`
+* `hist <base> <name>,<path>,<disk> …` → the answers of `Env.run` over that history (`nf`, `e`,
+  `f:<content>`), then ` | ` and the store afterwards.  Each step's snapshot holds `<disk>`
+  (`-` not found, `!` other error, else the content) at `<path>` and nothing anywhere else;
+  `<path>` is where the REAL `safe_join` pointed, so a model that joins differently reads nothing.
 
 Strings are percent-encoded UTF-8 (bytes `0x21..0x7e` except `%` and `,` stand for themselves,
 everything else is `%xx`); `flags` = `R`/`r` (has root or not) then `C`/`c` (leading `.` component
@@ -70,6 +74,36 @@ def handle (line : String) : String :=
     match dec p with
     | some p => describe p
     | none => "bad-case"
+  | "hist" :: b :: steps =>
+    match dec b with
+    | none => "bad-case"
+    | some b =>
+      -- a step is a request `name,path,disk` or the event `CLEAR` (`Environment::clear_templates`)
+      let parsed : List (Option (Option (Snapshot × Str))) := steps.map fun st =>
+        if st = "CLEAR" then some none else
+        match st.splitOn "," with
+        | [n, hp, res] =>
+          match dec n, (if hp = "" then some none else (dec hp).map some) with
+          | some n, some hp =>
+            let answer : ReadResult :=
+              if res = "-" then .notFound else if res = "!" then .failed else .content res.toList
+            some (some ((fun p => if some p = hp then answer else .notFound), n))
+          | _, _ => none
+        | _ => none
+      if parsed.any Option.isNone then "bad-case" else
+      let evs := parsed.filterMap id
+      let showR : LoadResult → String
+        | .found s => "f:" ++ String.ofList s
+        | .missing => "nf"
+        | .unreadable => "e"
+      let e0 : Env := ⟨pathLoader (fun _ => .notFound) b, []⟩
+      -- `Env.run` between two clears
+      let (e, rs) := evs.foldl (fun (acc : Env × List String) ev =>
+          match ev with
+          | none => (acc.1.clear, acc.2)
+          | some x => (acc.1.after [x], acc.2 ++ (acc.1.run [x]).map fun y => showR y.2)) (e0, [])
+      let ts := e.templates.map fun x => enc x.1 ++ "=" ++ String.ofList x.2
+      " ".intercalate rs ++ " | " ++ ";".intercalate ts
   | _ => "bad-case"
 
 partial def loop (h : IO.FS.Stream) (out : IO.FS.Stream) : IO Unit := do
